@@ -4,7 +4,8 @@
 //! on a private tokio runtime thread. Every request is recorded (signal by path, connection index, headers that
 //! matter, decoded records with their exact size on the wire) and answered per script:
 //!   ack | status n | grpc-status n (trailers) | grpc-status n (trailers-only, i.e. in the headers) | stall |
-//!   reset before / after reading the body | hold (answer `ack` once released — used to park the worker).
+//!   reset before / after reading the body | response HEADERS (200), then the response body breaks before any
+//!   trailers (RST_STREAM on the gRPC listener) | hold (answer `ack` once released — used to park the worker).
 //!
 //! Bodies: gunzip when `content-encoding: gzip` / gRPC flag byte 1; strip and validate the 5-byte gRPC frame;
 //! protobuf decoded with the prost types generated in the repo (`emitter/otlp/src/data/generated`), JSON with
@@ -140,6 +141,14 @@ pub enum Resp {
     Stall,
     /// read the body, send the response HEADERS (200, no END_STREAM), then never send the message / trailers
     StallAfterHeaders,
+    /// read the body, send the response HEADERS (200, no END_STREAM, no grpc-status), give them time to reach the
+    /// client, then fail the response body: on the gRPC listener hyper resets the stream (RST_STREAM) — the
+    /// client has a `:status 200` response whose body breaks before any trailers arrive. The connection survives.
+    ResetAfterHeaders,
+    /// read the body, send the response HEADERS (200; on the HTTP listener with a `content-length` and the first
+    /// bytes of a body, on the gRPC listener without END_STREAM), give them time to reach the client, then drop the
+    /// CONNECTION: the response body breaks mid-way / before any trailers and the connection is gone.
+    DropAfterHeaders,
     /// drop the connection as soon as the request head arrived
     ResetBefore,
     /// read the whole body, then drop the connection without answering
@@ -149,8 +158,19 @@ pub enum Resp {
 }
 
 impl Resp {
-    pub fn is_ack(self) -> bool {
+    /// Did the collector acknowledge the request? An OTLP/HTTP endpoint acknowledges with its 2xx status line
+    /// (whatever becomes of the response body afterwards); a gRPC endpoint with `grpc-status: 0` (a 2xx response
+    /// that ends without any grpc-status is taken as one) — a gRPC response that breaks between its headers and
+    /// its trailers never said so.
+    pub fn is_ack(self, grpc: bool) -> bool {
         matches!(self, Resp::Ack | Resp::AckBody | Resp::Hold | Resp::Status(200..=299) | Resp::GrpcStatus(0) | Resp::GrpcStatusHeaders(0))
+            || (!grpc && self == Resp::DropAfterHeaders)
+    }
+
+    /// The connection is dropped after the response head reached the client: the client has pooled a sender whose
+    /// connection is gone, and its next attempt fails on it without reaching the collector.
+    pub fn leaves_stale_sender(self) -> bool {
+        self == Resp::DropAfterHeaders
     }
 }
 
@@ -495,8 +515,40 @@ async fn handle(req: Request<Incoming>, conn: usize, h2: bool, shared: Arc<Share
             Response::builder()
                 .status(200)
                 .header("content-type", if grpc { "application/grpc" } else { "application/x-protobuf" })
-                .body(RespBody { data: None, trailers: None, hang: true })
+                .body(RespBody { data: None, trailers: None, hang: true, break_after: None, kill: None })
                 .unwrap()
+        }
+        Resp::ResetAfterHeaders => {
+            push(rec);
+            Response::builder()
+                .status(200)
+                .header("content-type", if grpc { "application/grpc" } else { "application/x-protobuf" })
+                .body(RespBody {
+                    data: None,
+                    trailers: None,
+                    hang: false,
+                    break_after: Some(Box::pin(tokio::time::sleep(BREAK_DELAY))),
+                    kill: None,
+                })
+                .unwrap()
+        }
+        Resp::DropAfterHeaders => {
+            push(rec);
+            let b = Response::builder().status(200);
+            let (b, data) = if grpc {
+                (b.header("content-type", "application/grpc"), None)
+            } else {
+                // a body of 64 bytes is announced, 10 of them are sent
+                (b.header("content-type", "application/x-protobuf").header("content-length", "64"), Some(Bytes::from_static(&[0u8; 10])))
+            };
+            b.body(RespBody {
+                data,
+                trailers: None,
+                hang: false,
+                break_after: Some(Box::pin(tokio::time::sleep(BREAK_DELAY))),
+                kill: Some(kill.clone()),
+            })
+            .unwrap()
         }
         Resp::Hold => {
             {
@@ -533,7 +585,7 @@ async fn handle(req: Request<Incoming>, conn: usize, h2: bool, shared: Arc<Share
                     .status(200)
                     .header("content-type", if json { "application/json" } else { "application/x-protobuf" })
                     .header("content-length", body.len())
-                    .body(RespBody { data: Some(Bytes::from_static(body)), trailers: None, hang: false })
+                    .body(RespBody { data: Some(Bytes::from_static(body)), trailers: None, hang: false, break_after: None, kill: None })
                     .unwrap()
             }
         }
@@ -551,7 +603,7 @@ async fn handle(req: Request<Incoming>, conn: usize, h2: bool, shared: Arc<Share
             Response::builder()
                 .status(200)
                 .header("content-type", "application/grpc")
-                .body(RespBody { data: None, trailers: Some(t), hang: false })
+                .body(RespBody { data: None, trailers: Some(t), hang: false, break_after: None, kill: None })
                 .unwrap()
         }
         Resp::GrpcStatusHeaders(n) => {
@@ -561,7 +613,7 @@ async fn handle(req: Request<Incoming>, conn: usize, h2: bool, shared: Arc<Share
                 .header("content-type", "application/grpc")
                 .header("grpc-status", n.to_string())
                 .header("grpc-message", "scripted")
-                .body(RespBody { data: None, trailers: None, hang: false })
+                .body(RespBody { data: None, trailers: None, hang: false, break_after: None, kill: None })
                 .unwrap()
         }
     }
@@ -578,6 +630,8 @@ fn ack(grpc: bool, with_body: bool) -> Response<RespBody> {
                 data: if with_body { Some(Bytes::from_static(&[0, 0, 0, 0, 0])) } else { None },
                 trailers: Some(t),
                 hang: false,
+                break_after: None,
+                kill: None,
             })
             .unwrap()
     } else {
@@ -589,7 +643,7 @@ fn plain(status: u16) -> Response<RespBody> {
     Response::builder()
         .status(status)
         .header("content-length", "0")
-        .body(RespBody { data: None, trailers: None, hang: false })
+        .body(RespBody { data: None, trailers: None, hang: false, break_after: None, kill: None })
         .unwrap()
 }
 
@@ -601,17 +655,37 @@ fn gunzip(b: &[u8]) -> Option<Vec<u8>> {
 
 // ------------------------------------------------------------------ response body
 
+/// How long a response that is to break mid-body stays intact after its head (and any data) was handed to hyper:
+/// long enough for the head to be flushed and read by the client before the stream is reset.
+const BREAK_DELAY: Duration = Duration::from_millis(3);
+
 pub struct RespBody {
     data: Option<Bytes>,
     trailers: Option<HeaderMap>,
     /// never produce a frame and never end
     hang: bool,
+    /// once the data (if any) was produced and this timer elapsed, the body fails instead of ending
+    break_after: Option<Pin<Box<tokio::time::Sleep>>>,
+    /// with `break_after`: instead of failing the body, drop the whole connection (and never produce a frame)
+    kill: Option<Arc<tokio::sync::Notify>>,
 }
+
+/// The error a scripted mid-body failure raises (hyper resets the HTTP/2 stream / aborts the HTTP/1 connection).
+#[derive(Debug)]
+pub struct BodyBroken;
+
+impl std::fmt::Display for BodyBroken {
+    fn fmt(&self, f: &mut std::fmt::Formatter) -> std::fmt::Result {
+        f.write_str("scripted response body failure")
+    }
+}
+
+impl std::error::Error for BodyBroken {}
 
 impl Body for RespBody {
     type Data = Bytes;
-    type Error = Infallible;
-    fn poll_frame(self: Pin<&mut Self>, _: &mut Context<'_>) -> Poll<Option<Result<Frame<Bytes>, Infallible>>> {
+    type Error = BodyBroken;
+    fn poll_frame(self: Pin<&mut Self>, cx: &mut Context<'_>) -> Poll<Option<Result<Frame<Bytes>, BodyBroken>>> {
         let this = self.get_mut();
         if this.hang {
             return Poll::Pending;
@@ -619,13 +693,27 @@ impl Body for RespBody {
         if let Some(d) = this.data.take() {
             return Poll::Ready(Some(Ok(Frame::data(d))));
         }
+        if let Some(timer) = this.break_after.as_mut() {
+            return match timer.as_mut().poll(cx) {
+                Poll::Pending => Poll::Pending,
+                Poll::Ready(()) => match this.kill.take() {
+                    None => Poll::Ready(Some(Err(BodyBroken))),
+                    Some(kill) => {
+                        kill.notify_one();
+                        this.break_after = None;
+                        this.hang = true;
+                        Poll::Pending
+                    }
+                },
+            };
+        }
         if let Some(t) = this.trailers.take() {
             return Poll::Ready(Some(Ok(Frame::trailers(t))));
         }
         Poll::Ready(None)
     }
     fn is_end_stream(&self) -> bool {
-        !self.hang && self.data.is_none() && self.trailers.is_none()
+        !self.hang && self.data.is_none() && self.trailers.is_none() && self.break_after.is_none()
     }
 }
 
